@@ -180,6 +180,14 @@ def prepare_lean(ctx: Ctx, module: str | None) -> None:
             ctx.obligations = theorem_names(module, ctx.pid)
         else:
             audit(ctx, module)
+            if not ctx.quick():
+                # thorough tier: the toolchain's independent re-checker replays the compiled proofs of the property module
+                # (and everything it imports) in a fresh kernel
+                rc, out = sh(["lake", "env", "leanchecker", module], cwd=LEAN_DIR, timeout=1800)
+                ctx.cov["samples"].append({"leanchecker": module, "exit": rc})
+                if rc != 0:
+                    ctx.broken.append({"kind": "leanchecker", "target": module, "what": "leanchecker rejects the compiled module",
+                                       "detail": out[-600:]})
 
 
 def tail_errors(out: str) -> str:
